@@ -19,7 +19,16 @@ class SymbolTable:
         return None
 
     @staticmethod
-    def lookup_symbol(*a, **k):
+    def lookup_symbol(op, name):
+        """the op directly inside `op`'s first region whose sym_name property equals `name`"""
+        if not isinstance(name, str):
+            name = name.string_value() if hasattr(name, "string_value") else name.data
+        for r in op.regions:
+            for b in r.blocks:
+                for o in b.ops:
+                    sn = o.properties.get("sym_name") if hasattr(o, "properties") else None
+                    if sn is not None and sn.data == name:
+                        return o
         return None
 
 
